@@ -1,12 +1,22 @@
 #!/usr/bin/env python3
 """maintenance helper (not used by checks): add entries to known_findings.json
-usage: tools_kf.py <property> <key> <what_fails> <input>"""
+usage: tools_kf.py <property> <key> <what_fails> <input>                 -> status known
+       tools_kf.py --fixed <commit> <property> <key> <what_fails> <input> -> status fixed"""
 import json, sys
 p = "/verif/known_findings.json"
 d = json.load(open(p))
-prop, key, what, inp = sys.argv[1:5]
+a = sys.argv[1:]
+commit = None
+if a[0] == "--fixed":
+    commit = a[1]
+    a = a[2:]
+prop, key, what, inp = a[:4]
 full = key if key.startswith(prop + "/") else prop + "/" + key
 d["findings"] = [f for f in d["findings"] if f["key"] != full]
-d["findings"].append({"property": prop, "key": full, "status": "known", "what_fails": what, "input": inp})
+e = {"property": prop, "key": full, "status": "fixed" if commit else "known", "what_fails": what, "input": inp}
+if commit:
+    e["commit"] = commit
+    e["fixed"] = "fixed: property=%s %s %s" % (prop, commit, what)
+d["findings"].append(e)
 d["findings"].sort(key=lambda f: (f["property"], f["key"]))
 json.dump(d, open(p, "w"), indent=1)
